@@ -309,7 +309,7 @@ impl LunarMonth {
   pub fn from_ym(year: isize, month: isize) -> Self {
     let instance: Self;
     let key: String = format!("{}_{}", year, month);
-    let mut map: MutexGuard<HashMap<String, Vec<f64>>> = LUNAR_MONTH_CACHE.lock().unwrap();
+    let mut map: MutexGuard<HashMap<String, Vec<f64>>> = LUNAR_MONTH_CACHE.lock().unwrap_or_else(|e| e.into_inner());
     let vec: Option<&Vec<f64>> = map.get(&key);
     match vec {
       Some(v) => instance = Self::from_cache((*v).to_owned()),
@@ -1123,7 +1123,7 @@ impl LunarHour {
   }
 
   pub fn get_eight_char(&self) -> EightChar {
-    EIGHT_CHAR_PROVIDER.lock().unwrap().get_eight_char(self.clone())
+    EIGHT_CHAR_PROVIDER.lock().unwrap_or_else(|e| e.into_inner()).get_eight_char(self.clone())
   }
 
   pub fn get_nine_star(&self) -> NineStar {
